@@ -333,6 +333,11 @@ def run(tier, seed, t0):
             fn(e3)
         except _e3.ENC_ERRORS as ex:
             e3.error(nm, "MIR->SMT encoding of the Prometheus recorder's aggregation chain", ex)
+    try:
+        import prom_int
+        prom_int.scen_ageing(e3, "C07", "c07")
+    except _e3.ENC_ERRORS as ex:
+        e3.error("c07_summary_across_quiet_time", "MIR->SMT integration encoding of the Prometheus recorder", ex)
     finish("C07", tier, seed, list(e3.res.obligations), t0, ASSUME + ["E3 callee models: " + ", ".join(sorted(e3.models))], sorted(e3.functions),
            explanation="MIR->SMT encoding of record / get_recent_metrics / run_upkeep histories of the Prometheus recorder against sample conservation")
 
